@@ -405,7 +405,7 @@ def run(tier):
     rng = C.Rng(C.seed()).fork('C11')
     proof = C.prove('C11', leanchecker=(tier == 'thorough'))
     binary = build_probe()
-    nrounds = 26 if tier == 'quick' else 700
+    nrounds = 26 if tier == 'quick' else 600
     ops, metas = [], []
     for l in corpus():
         ops.append(l)
@@ -438,7 +438,7 @@ def run(tier):
     wexe, _ = C.build_driver()
     corr = []
     st_lines = [ops[i] for i in ([0, len(corpus()) - 1, len(corpus()) + 1, len(corpus()) + 2][: 3 if tier == 'quick' else 4]) if i < n_real]
-    st_lines += [ops[i] for i in range(len(corpus()) + 3, min(n_real, len(corpus()) + 3 + (0 if tier == 'quick' else 40)))]
+    st_lines += [ops[i] for i in range(len(corpus()) + 3, min(n_real, len(corpus()) + 3 + (0 if tier == 'quick' else 30)))]
     st_results, st, wmodel = [], None, None
     for st_line in st_lines:
         one = strace_round(binary, st_line)
@@ -467,7 +467,7 @@ def run(tier):
     # sequential schedule (theorem C11.isolation, executed) — and therefore the implementation's
     shuf_n = 0
     if wexe and model is not None:
-        pick = list(range(min(n_real, 10 if tier == 'quick' else 200)))
+        pick = list(range(min(n_real, 10 if tier == 'quick' else 24)))
         sh_ops = [f'c11.shuffle {C.seed() * 7 + j} ' + ops[i].split(' ', 1)[1] for i in pick for j in (0, 1)]
         shf = os.path.join(C.BUILD, 'c11.shuffle.ops')
         open(shf, 'w').write('\n'.join(sh_ops) + '\n')
